@@ -11,7 +11,7 @@ use std::fmt::Write;
 #[derive(Clone, Debug)]
 pub enum PSlot {
     /// (member name in the nested struct, member name in flat D, from expr, into expr)
-    Leaf { name: String, d_name: String, from: ExprT, into: ExprT },
+    Leaf { name: String, d_name: String, from: ExprT, into: ExprT, into_ref: ExprT },
     Nested { name: String, node: Box<PNode> },
 }
 
@@ -48,7 +48,9 @@ fn gen_node(t: &mut Tape, depth: usize, counter: &mut usize, leaf_counter: &mut 
         let name = format!("l{}", li);
         let d_name = if t.chance(1, 3) { format!("dl{}", li) } else { name.clone() };
         let (from, into) = if t.chance(1, 4) { (ExprT::Add(1 + t.below(9) as i64), ExprT::MulSub(1 + t.below(9) as i64)) } else { (ExprT::Id, ExprT::Id) };
-        slots.push(PSlot::Leaf { name, d_name, from, into });
+        // sometimes the owned and the by-reference Into differ ([owned_into(..)] vs [ref_into(..)] sub-instructions)
+        let into_ref = if t.chance(1, 4) { ExprT::Add(20 + t.below(9) as i64) } else { into };
+        slots.push(PSlot::Leaf { name, d_name, from, into, into_ref });
     }
     if depth < 2 && t.chance(1, 2) {
         let n = 1 + t.below(2);
@@ -75,7 +77,12 @@ pub fn gen_plan(t: &mut Tape) -> ParentPlan {
             if t.chance(1, 3) && !has_bare {
                 has_bare = true;
                 let n = 1 + t.below(3);
-                let members: Vec<String> = (0..n).map(|_| { let li = leaf_counter; leaf_counter += 1; format!("l{}", li) }).collect();
+                let mut members: Vec<String> = (0..n).map(|_| { let li = leaf_counter; leaf_counter += 1; format!("l{}", li) }).collect();
+                // the nested value may write a counterpart member the struct itself also writes: the nested write comes last
+                let plain: Vec<String> = fields.iter().filter_map(|f| if let SField::Plain { d_name, .. } = f { Some(d_name.clone()) } else { None }).collect();
+                if !plain.is_empty() && t.coin() {
+                    members.push(t.pick(&plain).clone());
+                }
                 fields.push(SField::BareParent { name: format!("b{}", i), ty: format!("B{}", i), members });
             } else {
                 let node = gen_node(t, 0, &mut counter, &mut leaf_counter);
@@ -89,12 +96,13 @@ pub fn gen_plan(t: &mut Tape) -> ParentPlan {
     }
     let mut cells = [[false; 6]; 2];
     let mut any = false;
+    // a bare #[parent] relies on the field type's own conversions of the same fallibility: all kinds fallible or none
+    let bare_fallible = has_bare && t.chance(1, 3);
     for group in [[FO, FR], [OI, RI], [OIE, RIE]] {
         if !t.chance(3, 4) {
             continue;
         }
-        // bare #[parent] relies on the field type's own infallible conversions
-        let f = (!has_bare && t.chance(1, 4)) as usize;
+        let f = if has_bare { bare_fallible as usize } else { t.chance(1, 4) as usize };
         for k in group {
             if t.chance(3, 4) {
                 cells[f][k] = true;
@@ -103,7 +111,7 @@ pub fn gen_plan(t: &mut Tape) -> ParentPlan {
         }
     }
     if !any {
-        cells[0][OI] = true;
+        cells[bare_fallible as usize][OI] = true;
     }
     ParentPlan { fields, cells, has_bare }
 }
@@ -133,7 +141,7 @@ fn parent_fields(n: &PNode, need_types: bool, t: &mut Tape, labels: &mut Vec<Str
     n.slots
         .iter()
         .map(|s| match s {
-            PSlot::Leaf { name, d_name, from, into } => {
+            PSlot::Leaf { name, d_name, from, into, into_ref } => {
                 let mut attrs = vec![];
                 let member = if d_name != name { Some(d_name.clone()) } else { None };
                 let args = |m: &Option<String>, a: Option<String>| match (m, a) {
@@ -142,9 +150,17 @@ fn parent_fields(n: &PNode, need_types: bool, t: &mut Tape, labels: &mut Vec<Str
                     (None, Some(a)) => Some(a),
                     (None, None) => None,
                 };
-                if member.is_some() || !from.is_id() || !into.is_id() {
+                if member.is_some() || !from.is_id() || !into.is_id() || into != into_ref {
                     labels.push("parent:child-instr".into());
-                    if from == into {
+                    if into != into_ref {
+                        labels.push("parent:owned/ref-differ".into());
+                        if let Some(a) = args(&member, from.dsl("~")) {
+                            attrs.push(("from".to_string(), a));
+                        }
+                        // a rename-only instruction still has to be said for each ownership
+                        attrs.push(("owned_into".to_string(), args(&member, into.dsl("~")).unwrap_or_else(|| name.clone())));
+                        attrs.push(("ref_into".to_string(), args(&member, into_ref.dsl("~")).unwrap_or_else(|| name.clone())));
+                    } else if from == into {
                         if let Some(a) = args(&member, from.dsl("~")) {
                             attrs.push(("map".to_string(), a));
                         }
@@ -168,10 +184,10 @@ fn parent_fields(n: &PNode, need_types: bool, t: &mut Tape, labels: &mut Vec<Str
 }
 
 /// (flat D member, path inside S, from expr, into expr)
-fn flat_leaves(n: &PNode, path: &str, out: &mut Vec<(String, String, ExprT, ExprT)>) {
+fn flat_leaves(n: &PNode, path: &str, out: &mut Vec<(String, String, ExprT, ExprT, ExprT)>) {
     for s in &n.slots {
         match s {
-            PSlot::Leaf { name, d_name, from, into } => out.push((d_name.clone(), format!("{}.{}", path, name), *from, *into)),
+            PSlot::Leaf { name, d_name, from, into, into_ref } => out.push((d_name.clone(), format!("{}.{}", path, name), *from, *into, *into_ref)),
             PSlot::Nested { name, node } => flat_leaves(node, &format!("{}.{}", path, name), out),
         }
     }
@@ -204,12 +220,13 @@ pub fn render(t: &mut Tape, plan: &ParentPlan, core_only: bool) -> E2Case {
     }
     // D: all flat members
     let mut d_members: Vec<String> = vec![];
-    let mut leaves: Vec<(String, String, ExprT, ExprT)> = vec![];
+    let mut leaves: Vec<(String, String, ExprT, ExprT, ExprT)> = vec![];
+    let mut bare_leaves: Vec<(String, String, ExprT, ExprT, ExprT)> = vec![];
     for f in &plan.fields {
         match f {
             SField::Plain { name, d_name } => {
                 d_members.push(d_name.clone());
-                leaves.push((d_name.clone(), name.clone(), ExprT::Id, ExprT::Id));
+                leaves.push((d_name.clone(), name.clone(), ExprT::Id, ExprT::Id, ExprT::Id));
             }
             SField::Parent { name, node } => {
                 let mut l = vec![];
@@ -221,8 +238,11 @@ pub fn render(t: &mut Tape, plan: &ParentPlan, core_only: bool) -> E2Case {
             }
             SField::BareParent { name, members, .. } => {
                 for m in members {
-                    d_members.push(m.clone());
-                    leaves.push((m.clone(), format!("{}.{}", name, m), ExprT::Id, ExprT::Id));
+                    if !d_members.contains(m) {
+                        d_members.push(m.clone());
+                    }
+                    // poured in by the member's own into_existing *after* the struct's own assignments
+                    bare_leaves.push((m.clone(), format!("{}.{}", name, m), ExprT::Id, ExprT::Id, ExprT::Id));
                 }
             }
         }
@@ -269,7 +289,8 @@ pub fn render(t: &mut Tape, plan: &ParentPlan, core_only: bool) -> E2Case {
                 let body: String = members.iter().map(|m| format!("pub {}: i64, ", m)).collect();
                 let _ = write!(h, "#[derive(Debug, Clone, PartialEq, Default)] pub struct {} {{ {} }}\n", ty, body);
                 // the field type maps itself: From<&D> (used by S's From kinds) and IntoExisting<D> for B and &B
-                extra_derives.push(format!("#[from_ref(D)]\n#[into_existing(D)]\npub struct {} {{ {} }}", ty, body));
+                let fallible = plan.cells[1].iter().any(|x| *x);
+                extra_derives.push(if fallible { format!("#[try_from_ref(D, E)]\n#[try_into_existing(D, E)]\npub struct {} {{ {} }}", ty, body) } else { format!("#[from_ref(D)]\n#[into_existing(D)]\npub struct {} {{ {} }}", ty, body) });
             }
         }
     }
@@ -293,14 +314,19 @@ pub fn render(t: &mut Tape, plan: &ParentPlan, core_only: bool) -> E2Case {
         })
         .collect();
     let _ = write!(h, "pub fn ref_from(value: &D) -> S {{ S {{ {} }} }}\n", from_fields.join(", "));
-    let _ = write!(h, "pub fn mk_s() -> S {{ let mut s = ref_from(&mk_d()); {} s }}\n", leaves.iter().enumerate().map(|(i, l)| format!("s.{} = {};", l.1, 1000 + 37 * i as i64)).collect::<Vec<_>>().join(" "));
+    let _ = write!(h, "pub fn mk_s() -> S {{ let mut s = ref_from(&mk_d()); {} s }}\n", leaves.iter().chain(bare_leaves.iter()).enumerate().map(|(i, l)| format!("s.{} = {};", l.1, 1000 + 37 * i as i64)).collect::<Vec<_>>().join(" "));
     // Into: every D member from its leaf; IntoExisting: same assignments on an existing value
     let mut assigns = String::new();
-    for (d, spath, _, into) in &leaves {
-        let _ = write!(assigns, "other.{} = {}; ", d, into.reference(&format!("s.{}", spath)));
+    for (d, spath, _, into, into_ref) in leaves.iter().chain(bare_leaves.iter()) {
+        let src = format!("s.{}", spath);
+        if into == into_ref {
+            let _ = write!(assigns, "other.{} = {}; ", d, into.reference(&src));
+        } else {
+            let _ = write!(assigns, "other.{} = if owned {{ {} }} else {{ {} }}; ", d, into.reference(&src), into_ref.reference(&src));
+        }
     }
-    let _ = write!(h, "pub fn ref_into_existing(s: &S, other: &mut D) {{ {} }}\n", assigns);
-    let _ = write!(h, "pub fn ref_into(s: &S) -> D {{ let mut other: D = Default::default(); ref_into_existing(s, &mut other); other }}\n");
+    let _ = write!(h, "pub fn ref_into_existing(s: &S, other: &mut D, owned: bool) {{ let _ = owned; {} }}\n", assigns);
+    let _ = write!(h, "pub fn ref_into(s: &S, owned: bool) -> D {{ let mut other: D = Default::default(); ref_into_existing(s, &mut other, owned); other }}\n");
     let _ = has_into;
 
     // ---- run ----------------------------------------------------------------------------------
@@ -320,14 +346,14 @@ pub fn render(t: &mut Tape, plan: &ParentPlan, core_only: bool) -> E2Case {
             (FR, false) => "let src = mk_d(); let got: S = ::core::convert::From::from(&src); let want = ref_from(&src);".to_string(),
             (FO, true) => "let got: ::core::result::Result<S, E> = ::core::convert::TryFrom::try_from(mk_d()); let want: ::core::result::Result<S, E> = Ok(ref_from(&mk_d()));".to_string(),
             (FR, true) => "let src = mk_d(); let got: ::core::result::Result<S, E> = ::core::convert::TryFrom::try_from(&src); let want: ::core::result::Result<S, E> = Ok(ref_from(&src));".to_string(),
-            (OI, false) => "let got: D = ::core::convert::Into::into(mk_s()); let want = ref_into(&mk_s());".to_string(),
-            (RI, false) => "let src = mk_s(); let got: D = ::core::convert::Into::into(&src); let want = ref_into(&src);".to_string(),
-            (OI, true) => "let got: ::core::result::Result<D, E> = ::core::convert::TryInto::try_into(mk_s()); let want: ::core::result::Result<D, E> = Ok(ref_into(&mk_s()));".to_string(),
-            (RI, true) => "let src = mk_s(); let got: ::core::result::Result<D, E> = ::core::convert::TryInto::try_into(&src); let want: ::core::result::Result<D, E> = Ok(ref_into(&src));".to_string(),
-            (OIE, false) => "let mut got = sentinel(); o2o::traits::IntoExisting::into_existing(mk_s(), &mut got); let mut want = sentinel(); ref_into_existing(&mk_s(), &mut want);".to_string(),
-            (RIE, false) => "let src = mk_s(); let mut got = sentinel(); o2o::traits::IntoExisting::into_existing(&src, &mut got); let mut want = sentinel(); ref_into_existing(&src, &mut want);".to_string(),
-            (OIE, true) => "let mut g = sentinel(); let r: ::core::result::Result<(), E> = o2o::traits::TryIntoExisting::try_into_existing(mk_s(), &mut g); let got = (r, g); let mut w = sentinel(); ref_into_existing(&mk_s(), &mut w); let want = (Ok(()), w);".to_string(),
-            (RIE, true) => "let src = mk_s(); let mut g = sentinel(); let r: ::core::result::Result<(), E> = o2o::traits::TryIntoExisting::try_into_existing(&src, &mut g); let got = (r, g); let mut w = sentinel(); ref_into_existing(&src, &mut w); let want = (Ok(()), w);".to_string(),
+            (OI, false) => "let got: D = ::core::convert::Into::into(mk_s()); let want = ref_into(&mk_s(), true);".to_string(),
+            (RI, false) => "let src = mk_s(); let got: D = ::core::convert::Into::into(&src); let want = ref_into(&src, false);".to_string(),
+            (OI, true) => "let got: ::core::result::Result<D, E> = ::core::convert::TryInto::try_into(mk_s()); let want: ::core::result::Result<D, E> = Ok(ref_into(&mk_s(), true));".to_string(),
+            (RI, true) => "let src = mk_s(); let got: ::core::result::Result<D, E> = ::core::convert::TryInto::try_into(&src); let want: ::core::result::Result<D, E> = Ok(ref_into(&src, false));".to_string(),
+            (OIE, false) => "let mut got = sentinel(); o2o::traits::IntoExisting::into_existing(mk_s(), &mut got); let mut want = sentinel(); ref_into_existing(&mk_s(), &mut want, true);".to_string(),
+            (RIE, false) => "let src = mk_s(); let mut got = sentinel(); o2o::traits::IntoExisting::into_existing(&src, &mut got); let mut want = sentinel(); ref_into_existing(&src, &mut want, false);".to_string(),
+            (OIE, true) => "let mut g = sentinel(); let r: ::core::result::Result<(), E> = o2o::traits::TryIntoExisting::try_into_existing(mk_s(), &mut g); let got = (r, g); let mut w = sentinel(); ref_into_existing(&mk_s(), &mut w, true); let want = (Ok(()), w);".to_string(),
+            (RIE, true) => "let src = mk_s(); let mut g = sentinel(); let r: ::core::result::Result<(), E> = o2o::traits::TryIntoExisting::try_into_existing(&src, &mut g); let got = (r, g); let mut w = sentinel(); ref_into_existing(&src, &mut w, false); let want = (Ok(()), w);".to_string(),
             _ => unreachable!(),
         };
         if core_only {
